@@ -203,7 +203,12 @@ func AddDeviations(t *rapid.T, set *ymodel.Set, o DevOpts) map[string]int {
 		n := rapid.IntRange(1, o.Max).Draw(t, "deviations")
 		for i := 0; i < n; i++ {
 			var cands []Target
-			for _, tg := range Targets(set, trees, d) {
+			// all nodes, also the shorthand members of choices (their paths run through the case that stands
+			// around them); the inserted cases themselves are not written anywhere and are left alone
+			for _, tg := range AllNodes(set, trees, d) {
+				if tg.Node.Implicit {
+					continue
+				}
 				switch tg.Node.Kind {
 				case ymodel.KInput, ymodel.KOutput, ymodel.KRPC, ymodel.KAction, ymodel.KNotification, ymodel.KCase, ymodel.KAnydata, ymodel.KAnyxml:
 					// nothing to change on these; they can be removed (an unwritten input/output cannot be named)
